@@ -165,42 +165,6 @@ def decode(d):
 GAP_LIMIT = 65536
 
 
-def py_class(d):
-    """the known class the generator EXPECTS datagram d to belong to (0 = none); only used to
-    place class members at the end of a case, never to judge a result"""
-    for k, f in decode(d):
-        if k == "IR":
-            return 1
-        if k == "GP":
-            if f["base"] - f["start"] > GAP_LIMIT:
-                return 2
-            if any(f["base"] + i >= I64MAX for i in f["sets"]):
-                return 3
-        if k == "AN":
-            if f["base"] == I64MIN:
-                return 4
-            if any(f["base"] + i >= I64MAX for i in f["sets"]):
-                return 3
-        if k == "HB" and f["first"] == I64MIN:
-            return 5
-        if k in ("DA", "DF", "NF") and f["sn"] >= I64MAX:
-            return 6
-        if k == "DF" and f["fcount"] > f["plen"] + 1:
-            return 7
-        if k == "NF" and (f["nbits"] > 256 or any(f["base"] + i > U32MAX for i in f["sets"])):
-            return 8
-    # decoder classes of C07 that make the decoder itself super-linear are avoided altogether
-    return 0
-
-
-def c07_cost_class(d):
-    """INFO_REPLY over-read / DATA length-0 rescan (recorded under C07): not injected"""
-    for (_o, kind, fl, n, body) in W.split(d):
-        if kind in (0x15, 0x16) and n == 0:
-            return True
-    return False
-
-
 # ------------------------------------------------------------------ measured initial state
 def measure(log, knobs):
     """model state of V's user reader and writer from the user traffic of the set-up phase.
@@ -422,7 +386,8 @@ def reid(r, default):
 
 
 def clean_sub(r, be=False):
-    """one well-formed submessage with adversarial but CLASS-FREE field values"""
+    """one well-formed submessage with adversarial field values (mostly inside the ranges RTPS
+    declares valid; hostile_dgram() produces the others)"""
     k = r.random()
     rid_r, wid_w = reid(r, EID_R), reid(r, EID_W)
     if k < 0.16:
@@ -431,7 +396,7 @@ def clean_sub(r, be=False):
     if k < 0.30:
         base = rsn(r)
         start = base - r.choice([0, 1, 2, 10, 255, 1000, GAP_LIMIT, -1, -5, -2**40]) if r.random() < 0.9 else rsn(r)
-        if base - start > GAP_LIMIT or start < I64MIN or start > I64MAX:
+        if start < I64MIN or start > I64MAX:
             start = base
         bits = [b for b in rbits(r) if base + b < I64MAX]
         return W.gap(rid_r, wid_w, start, base, bits, nbits=r.choice([None, 256, 0, len(bits)]) if not bits else None, be=be)
@@ -720,7 +685,7 @@ def rknobs(r):
 
 
 def gen(r, tier):
-    ncases, per = {"quick": (78, 40), "search": (160, 40), "thorough": (1100, 60)}[tier]
+    ncases, per = {"quick": (60, 40), "search": (160, 40), "thorough": (800, 60)}[tier]
     lim = LIM_MS[tier]
     cases = []
     cap = captured(dict(frag=64, a=2, m=2, j=1, rel=1))
